@@ -185,7 +185,12 @@ class MatlabDefCompiler:
         return self.generate_struct(mdf, "MDF")
 
     def generate_message_header(self) -> str:
-        return f"{self.struct_name}.MESSAGE_HEADER = {self.struct_name}.typedefs.RTMA_MSG_HEADER;\n"
+        # RTMA_MSG_HEADER comes from the core defs: without them (and without a
+        # user typedef of that name) there is nothing to point MESSAGE_HEADER at
+        name = "RTMA_MSG_HEADER"
+        if name not in self.parser.struct_defs and name not in self.parser.aliases:
+            return ""
+        return f"{self.struct_name}.MESSAGE_HEADER = {self.struct_name}.typedefs.{name};\n"
 
     def generate_hash_id(self, mdf: MDF) -> str:
         return f'{self.struct_name}.hash.{self.sanitize_name(mdf.name)} = "{mdf.hash[:8]}";\n'
